@@ -405,7 +405,7 @@ func (ex *Exec) specCall(sc *Scope, e *ast.CallExpr) Val {
 			return Bool{smt.Bool(shortType(i.Dyn) == want)}
 		}
 		if i, ok := v.(Iface); ok {
-			return Bool{smt.Eq(smt.App("dyn", i.Ref), ex.typeIDByName(want))}
+			return Bool{smt.And(smt.Neq(i.Ref, NilRef), smt.Eq(smt.App("dyn", i.Ref), ex.typeID(lookupType(sc.Pkg, want))))}
 		}
 		specErr(e, "typeIs on %T", v)
 	case "D":
@@ -419,6 +419,55 @@ func (ex *Exec) specCall(sc *Scope, e *ast.CallExpr) Val {
 			specErr(e, "D: argument is not a reference")
 		}
 		return Bool{smt.Sel(d, r)}
+	case "as":
+		want, _ := strconv.Unquote(e.Args[1].(*ast.BasicLit).Value)
+		v := arg(0)
+		if i, ok := v.(Iface); ok {
+			if i.Dyn != nil {
+				if shortType(i.Dyn) != want {
+					// only meaningful under a typeIs guard that is false here: an arbitrary object
+					pt, ok := lookupType(sc.Pkg, want).(*types.Pointer)
+					if !ok {
+						specErr(e, "as: %s is not a pointer type", want)
+					}
+					return Ptr{Ref: ex.Ctx.Fresh("mismatch", "Ref"), Root: pt.Elem()}
+				}
+				return i.V
+			}
+			pt, ok := lookupType(sc.Pkg, want).(*types.Pointer)
+			if !ok {
+				specErr(e, "as: %s is not a pointer type", want)
+			}
+			return Ptr{Ref: i.Ref, Root: pt.Elem()}
+		}
+		specErr(e, "as on %T", v)
+	case "last":
+		sl, ok := arg(0).(Slice)
+		if !ok {
+			specErr(e, "last of %T", arg(0))
+		}
+		return wrapTerm(sl.Elem, smt.Sel(sl.Arr, smt.Sub(sl.Len, "1")))
+	case "ext":
+		name, _ := strconv.Unquote(e.Args[0].(*ast.BasicLit).Value)
+		var terms, sorts []string
+		for i := 1; i < len(e.Args); i++ {
+			terms = append(terms, flatten(arg(i))...)
+			sorts = append(sorts, flatSorts(arg(i))...)
+		}
+		ret := "Str"
+		switch name {
+		case "strings.Contains", "strings.HasPrefix", "strings.HasSuffix":
+			ret = "Bool"
+		case "strings.Split", "strings.Fields":
+			fa := ex.Ctx.Declare(fmt.Sprintf("ext_%s_0_arr", name), sorts, "(Array Int Str)")
+			fl := ex.Ctx.Declare(fmt.Sprintf("ext_%s_0_len", name), sorts, "Int")
+			return Slice{Arr: smt.App(fa, terms...), Len: smt.App(fl, terms...), Elem: types.Typ[types.String]}
+		}
+		f := ex.Ctx.Declare(fmt.Sprintf("ext_%s_0", name), sorts, ret)
+		if ret == "Bool" {
+			return Bool{smt.App(f, terms...)}
+		}
+		return Str{smt.App(f, terms...)}
 	case "at":
 		n, _ := strconv.Atoi(e.Args[0].(*ast.BasicLit).Value)
 		name := e.Args[1].(*ast.Ident).Name
@@ -447,6 +496,7 @@ func (ex *Exec) specCall(sc *Scope, e *ast.CallExpr) Val {
 	}
 	// spec functions
 	if sp, ok := ex.Contracts.Specs[fname]; ok {
+		ex.loadSpecAxioms(sc)
 		var args []string
 		for i := range e.Args {
 			args = append(args, flatten(arg(i))...)
@@ -656,4 +706,21 @@ func exprText(e ast.Expr) string {
 		return true
 	})
 	return b.String()
+}
+
+// loadSpecAxioms adds the //@ axiom clauses (about uninterpreted spec functions) once.
+func (ex *Exec) loadSpecAxioms(sc *Scope) {
+	ex.mu.Lock()
+	done := ex.specAxiomsLoaded
+	ex.specAxiomsLoaded = true
+	ex.mu.Unlock()
+	if done {
+		return
+	}
+	for _, ax := range ex.Contracts.Axioms {
+		tmp := ex.NewState()
+		asc := &Scope{St: tmp, Vars: map[string]Val{}, Addr: map[string]bool{}, Pkg: sc.Pkg}
+		b := ex.evalSpec(asc, ax.Clause.Expr).(Bool).T
+		ex.Ctx.AddAxiom(smt.Imp(smt.And(tmp.PC...), b))
+	}
 }
